@@ -70,7 +70,13 @@ def judge(ctx, obs):
         waiting_in_poll = [d for d in obs["deadlock"] if d[2] == ("poll", "A")]
         bad.append(("deadlock", "threads deadlocked: %r" % (obs["deadlock"],)))
     elif obs["aborted"]:
-        bad.append(("livelock", "run aborted: %s" % obs["aborted"]))
+        # the step budget is a bound on the run, not a verdict. A livelock spins without the virtual clock moving; a run in
+        # which waiters sit out long (listed, C14) stalls while a polling thread keeps turning merely takes many steps.
+        if obs["now"] >= 5.0:
+            ctx.count("runs_cut_by_step_budget_during_long_virtual_waits")
+            tainted = True
+        else:
+            bad.append(("livelock", "run aborted at virtual time %.3g s: %s" % (obs["now"], obs["aborted"])))
     if not tainted:
         for token, out, t_ret, t_done, ci in obs["outcomes"]:
             if out[0] == "exc":
@@ -274,6 +280,8 @@ def run(ctx):
         ctx.inconclusive("no pre-emption taken")
     if ctx.counters["runs"] and ctx.counters["tainted_by_c14"] > 0.9 * ctx.counters["runs"]:
         ctx.inconclusive("almost every run was tainted by the C14 stall: liveness was hardly judged")
+    if ctx.counters["runs"] and ctx.counters["runs_cut_by_step_budget_during_long_virtual_waits"] > 0.02 * ctx.counters["runs"]:
+        ctx.inconclusive("more than 2 % of the runs were cut by the step budget")
 
 
 def replay(ctx, w):
